@@ -149,6 +149,11 @@ func (p *PKCS7PaddingWriter) Final() error {
 	if unpadding > p.blockSize || unpadding == 0 {
 		return errors.New("非法的PKCS7填充")
 	}
+	for i := 0; i < unpadding; i++ {
+		if b[length-1-i] != byte(unpadding) {
+			return errors.New("非法的PKCS7填充")
+		}
+	}
 	_, err := p.out.Write(b[:(length - unpadding)])
 	return err
 }
